@@ -328,6 +328,50 @@ def c04_bounded(tier="quick", seed=0):
     return out
 
 
+def _numeric_chunk(prefixes):
+    import itertools
+    from microjs import Context
+    from microjs.errors import JSError
+    alphabet = "0189afgxXoObBeE._+-n"
+    bad, n = [], 0
+    c = Context(time_limit=5)
+    for pre in prefixes:
+        for k in range(0, 4):
+            for tail in itertools.product(alphabet, repeat=k):
+                lit = pre + "".join(tail)
+                for src in (lit, "var v = " + lit + "; v", "[" + lit + "]", lit + ".x"):
+                    n += 1
+                    try:
+                        c.eval(src)
+                    except JSError:
+                        pass
+                    except BaseException as e:  # noqa
+                        bad.append((src, "host exception " + type(e).__name__ + ": " + str(e)[:80]))
+                        c = Context(time_limit=5)
+                        break
+                if len(bad) > 3:
+                    return n, bad
+    return n, bad
+
+
+NUMERIC_PREFIXES = ["0x", "0X", "0o", "0O", "0b", "0B", "0", "", "1", ".", "0.", "1e", "9", "0x1", "0b1", "0o7"]
+
+
+@groups.group(id="C04.bounded.numeric-near-misses", prop="C04", kind="B", functions=["microjs.lexer:Lexer._read_number", "microjs.lexer:Lexer._integer_value"])
+def c04_numeric_near_misses(tier="quick", seed=0):
+    """every text made of a numeric-literal prefix followed by up to three characters of 0189afgxXoObBeE._+-n (digits that a
+    radix does not have, doubled prefixes, stray dots, signs and exponent letters, the BigInt suffix), alone and in three
+    contexts: a value or a JSError, never the host's int()/float() complaint"""
+    import multiprocessing as mp
+    with mp.get_context("fork").Pool(16) as pool:
+        res = pool.map(_numeric_chunk, [[p_] for p_ in NUMERIC_PREFIXES])
+    out = []
+    for pre, (n, bad) in zip(NUMERIC_PREFIXES, res):
+        out.append(ob(f"C04.bounded.numeric-near-misses.{pre or 'none'}", not bad, "B", f"{n} sources" if not bad else f"{bad[0][0]!r}: {bad[0][1]}",
+                      witness=bad[0][0] if bad else None, confirmed=True if bad else None, domain=n))
+    return out
+
+
 GLOBAL_NAMES = ["Object", "Array", "Function", "Error", "TypeError", "RangeError", "SyntaxError", "ReferenceError", "String", "Number", "Boolean", "RegExp", "JSON", "Math", "Date",
                 "Uint8Array", "ArrayBuffer", "parseInt", "isNaN", "undefined", "NaN", "Infinity", "eval"]
 GLOBAL_VALUES = ["1", "null", "undefined", "'s'", "({})", "function () { return 7 }"]
